@@ -163,7 +163,38 @@ def body_info(body):
 # it sees the equivalent `for x in xs { .. }`.  Only used when the rule's hooks opt in to inlining that closure.
 FOLD_DECLS = {"std::iter::Iterator::try_fold": "try_fold", "std::iter::Iterator::fold": "fold",
               "std::iter::Iterator::for_each": "for_each", "std::iter::Iterator::try_for_each": "try_for_each"}
+# adaptors that only carry a closure along (map, filter, any, ...): the closure is interpreted ONCE on a symbolic element ("probe"), so a
+# rule observes what the closure body does with the captured values; the adaptor's own result stays opaque
+PROBE_DECLS = {"std::iter::Iterator::map": "map", "std::iter::Iterator::filter": "filter", "std::iter::Iterator::filter_map": "filter_map",
+               "std::iter::Iterator::flat_map": "flat_map", "std::iter::Iterator::any": "any", "std::iter::Iterator::all": "all",
+               "std::iter::Iterator::find": "find", "std::iter::Iterator::position": "position", "std::iter::Iterator::inspect": "inspect",
+               "std::iter::Iterator::take_while": "take_while", "std::iter::Iterator::skip_while": "skip_while", "std::iter::Iterator::map_while": "map_while"}
 _SYNTH = {}
+
+
+def synth_probe_body(cr, kind, ckey):
+    """locals: 0 ret | 1 iter | 2 closure | 3 &mut closure | 4 symbolic element | 5 closure result"""
+    ck = ("probe", kind, ckey, id(cr))
+    if ck in _SYNTH:
+        return _SYNTH[ck]
+    clo = cr.fns[ckey]
+    other = _other_type(cr)
+    locals_ = [other] * 6
+    locals_[4] = clo["locals"][2] if len(clo["locals"]) > 2 else other
+    locals_[5] = clo["locals"][0]
+    meta = {"f": "<model of Iterator::%s>" % kind, "ln": 0}
+
+    def call(decl, args, dest, to, via):
+        t = {"t": "call", "fn": {"decl": decl, "dkey": decl, "path": decl, "key": decl, "via": via, "local": 0, "ga": []}, "args": args, "dest": dest, "to": to}
+        t.update(meta)
+        return t
+    b0 = {"s": [dict({"p": 3, "rv": {"r": "ref", "m": 1, "p": 2}}, **meta)], "term": call("std::ops::FnMut::call_mut", [{"m": 3}, {"c": 4}], 5, 1, "trait")}
+    b1 = {"s": [], "term": call("model::opaque", [{"c": 1}], 0, 2, "direct")}
+    b2 = {"s": [], "term": dict({"t": "return"}, **meta)}
+    body = {"key": "model::%s<%s>" % (kind, ckey), "path": "model::%s" % kind, "kind": "fn", "file": "<model>", "line": 0, "hi": 0, "vis": "", "argc": 2,
+            "locals": locals_, "names": [["item", 4]], "blocks": [b0, b1, b2], "promoted": [], "closure": ckey}
+    _SYNTH[ck] = body
+    return body
 
 
 def _other_type(cr):
@@ -723,7 +754,8 @@ class AI:
             if op == "Neg" and a[0] == "int":
                 return [(st, ("int", -a[1]))]
             if op == "PtrMetadata":
-                n = self.len_name(st, a)
+                # the length of the slice a fat pointer leads to: named like `<that slice>.len()` (pointee of the pointer value)
+                n = ("LEN(%s*)" % a[1]) if a[0] == "sym" else self.len_name(st, a)
                 if n is not None:
                     return [(st, ("sym", n))]
             return [(st, self.sym(st, self.site(st, sfx + ":un")))]
@@ -896,6 +928,21 @@ class AI:
         return ty
 
     def fold_model(self, st, frame, term, callee, args, to):
+        pk = PROBE_DECLS.get(M.norm_path(callee.get("decl", "")))
+        if pk is not None and to is not None and len(args) == 2 and len(st.frames) < self.max_depth:
+            fv = self.resolve(st, args[1])
+            if fv[0] == "ref":
+                fv = self.resolve(st, self.read_at(st, fv[1], fv[2]))
+            if fv[0] == "closure" and fv[1] in self.cr.fns and self.cr.fns[fv[1]]["argc"] == 2 and self.hooks.inline(self, st, fv[1], self.cr.fns[fv[1]]):
+                body = synth_probe_body(self.cr, pk, fv[1])
+                nf = Frame(body["key"], body, "%s%s:%d>" % (frame.prefix, short(frame.fkey), frame.bb), len(st.frames))
+                nf.locals[1] = args[0]
+                nf.locals[2] = args[1]
+                nf.ret_place = term["dest"]
+                nf.ret_to = to
+                st.frames.append(nf)
+                return [st]
+            return None
         kind = FOLD_DECLS.get(M.norm_path(callee.get("decl", "")))
         if kind is None or to is None or not args or len(st.frames) >= self.max_depth:
             return None
@@ -923,6 +970,8 @@ class AI:
         """Built-in models of a few std functions. -> None | list of (state, value)"""
         decl = M.norm_path(callee.get("decl", ""))
         path = M.norm_path(callee.get("path", ""))
+        if decl == "model::opaque":
+            return [(st, self.sym(st, "%s:adaptor" % frame.prefix.rstrip(">")))]
         if decl == "model::from_output" and args:
             rk = frame.body.get("ret_kind")
             v = args[0]
@@ -958,6 +1007,28 @@ class AI:
             if v[0] == "enum" and v[1] == OPTION and v[2] == 0:
                 return [(st, ("enum", OPTION, 0, ()))]
             return None
+        # error-plumbing combinators that leave the success value alone (`r.map_err(f)?` == `match r { Ok(v) => v, Err(e) => return Err(f(e)) }`)
+        if path in ("std::result::Result::map_err", "std::option::Option::ok_or", "std::option::Option::ok_or_else", "std::result::Result::ok",
+                    "std::result::Result::err", "std::result::Result::or_else") and args:
+            ty = self.operand_ty(frame, term["args"][0])
+            alts = self.fork_enum(st, args[0], ty)
+            if alts is not None:
+                outs = []
+                for s2, ev in alts:
+                    site = self.site(s2, ":" + path.split("::")[-1])
+                    if path == "std::result::Result::map_err" and ev[1] == RESULT:
+                        outs.append((s2, ev if ev[2] == 0 else ("enum", RESULT, 1, (self.sym(s2, site),))))
+                    elif path in ("std::option::Option::ok_or", "std::option::Option::ok_or_else") and ev[1] == OPTION:
+                        outs.append((s2, ("enum", RESULT, 0, (ev[3][0],)) if ev[2] == 1 else ("enum", RESULT, 1, (self.sym(s2, site),))))
+                    elif path == "std::result::Result::ok" and ev[1] == RESULT:
+                        outs.append((s2, ("enum", OPTION, 1, (ev[3][0],)) if ev[2] == 0 else ("enum", OPTION, 0, ())))
+                    elif path == "std::result::Result::err" and ev[1] == RESULT:
+                        outs.append((s2, ("enum", OPTION, 1, (ev[3][0],)) if ev[2] == 1 else ("enum", OPTION, 0, ())))
+                    else:
+                        outs = None
+                        break
+                if outs is not None:
+                    return outs
         if decl == "std::clone::Clone::clone" and args:
             v = self.resolve(st, args[0])
             if v[0] == "ref":
